@@ -93,15 +93,30 @@ fn ft_rust(t: &FT, types: &[TypeDef]) -> String {
     }
 }
 
-fn gen_ft(rng: &mut Lcg, ntypes: usize, depth: usize, in_opt: bool) -> FT {
+/// a named struct all of whose fields are optional: it can be read back from `null` itself, so `Option<S>` must look at
+/// the value before it asks `S`
+fn all_optional(t: &TypeDef) -> bool {
+    matches!(&t.kind, Kind::Struct(fs) if fs.iter().all(|f| matches!(f.2, FT::Opt(_))))
+}
+
+fn gen_ft(rng: &mut Lcg, types: &[TypeDef], depth: usize, in_opt: bool) -> FT {
+    let ntypes = types.len();
     let r = rng.next() % 20;
     match r {
         0 | 1 => FT::Bool,
         2..=6 => FT::Int(INT_TYPES[(rng.next() % 9) as usize].0),
         7 | 8 => FT::F64,
         9..=11 => FT::Str,
-        12 | 13 if depth < 2 && !in_opt => FT::Opt(Box::new(gen_ft(rng, ntypes, depth + 1, true))),
-        14 | 15 if depth < 2 => FT::Vec(Box::new(gen_ft(rng, ntypes, depth + 1, false))),
+        12 | 13 if depth < 2 && !in_opt => {
+            // an optional all-optional struct now and then
+            let nullable: Vec<usize> = (0..ntypes).filter(|k| all_optional(&types[*k])).collect();
+            if !nullable.is_empty() && rng.next() % 2 == 0 {
+                FT::Opt(Box::new(FT::Named(nullable[(rng.next() % nullable.len() as u64) as usize])))
+            } else {
+                FT::Opt(Box::new(gen_ft(rng, types, depth + 1, true)))
+            }
+        }
+        14 | 15 if depth < 2 => FT::Vec(Box::new(gen_ft(rng, types, depth + 1, false))),
         16..=18 if ntypes > 0 => FT::Named((rng.next() % ntypes as u64) as usize),
         _ => FT::Str,
     }
@@ -128,12 +143,25 @@ fn gen_types(rng: &mut Lcg, n: usize) -> Vec<TypeDef> {
                     key = format!("{}_{}", id, keys.len());
                 }
                 keys.push(key.clone());
-                fields.push((id, key, gen_ft(rng, types.len(), 0, false)));
+                fields.push((id, key, gen_ft(rng, &types, 0, false)));
+            }
+            // one struct in eight has only optional fields
+            if rng.next() % 8 == 0 {
+                fields.truncate(3);
+                for f in fields.iter_mut() {
+                    if !matches!(f.2, FT::Opt(_)) {
+                        let inner = match &f.2 {
+                            FT::Vec(_) | FT::Named(_) => FT::Str,
+                            other => other.clone(),
+                        };
+                        f.2 = FT::Opt(Box::new(inner));
+                    }
+                }
             }
             Kind::Struct(fields)
         } else if kind_sel < 8 {
             let nf = 1 + (rng.next() % 6) as usize;
-            Kind::Tuple((0..nf).map(|_| gen_ft(rng, types.len(), 0, false)).collect())
+            Kind::Tuple((0..nf).map(|_| gen_ft(rng, &types, 0, false)).collect())
         } else {
             let nv = 1 + (rng.next() % 8) as usize;
             let mut vs = Vec::new();
